@@ -28,6 +28,9 @@ type ModSet struct {
 	MemRefs  map[string][]MemRange
 	Globals  map[*ssa.Global]bool
 	Alloc    bool
+	Ev       bool // the ghost event log (evLen and every ev:* array)
+	Maps     bool // every map
+	AllHeap  bool // every heap, memory, map and global (but no ghost state)
 	heapT    map[string]types.Type
 	memT     map[string]types.Type
 }
@@ -87,6 +90,18 @@ func (e *Engine) addMod(ctx *EvalCtx, ms *ModSet, ex Expr) (err error) {
 		}
 		if x.Name == "alloc" {
 			ms.Alloc = true
+			return nil
+		}
+		if x.Name == "ev" {
+			ms.Ev = true
+			return nil
+		}
+		if x.Name == "maps" {
+			ms.Maps = true
+			return nil
+		}
+		if x.Name == "allheap" {
+			ms.AllHeap = true
 			return nil
 		}
 		if g, ok := e.cs.Ghosts[x.Name]; ok && !g.IsFunc {
@@ -230,8 +245,54 @@ func (e *Engine) havoc(st *State, ms *ModSet) {
 			st.Globs[g] = mapLeaves(v, func(t *Term) *Term { return Fresh("hv:glob", t.Sort) })
 		}
 		st.HavocAll++
+		st.Epoch = newEpoch()
+		st.EpochMaps = ""
+		st.EpochEv = st.Epoch
+		st.EpochGhost = st.Epoch
 		e.growAlloc(st)
 		return
+	}
+	if ms.AllHeap {
+		for k, h := range st.Heaps {
+			st.Heaps[k] = mapLeaves(h, func(t *Term) *Term { return Fresh("hv:"+k, t.Sort) })
+		}
+		for k, m := range st.Mems {
+			st.Mems[k] = mapLeaves(m, func(t *Term) *Term { return Fresh("hv:"+k, t.Sort) })
+		}
+		for g, v := range st.Globs {
+			if e.cs.ConstGl[globKey(g)] {
+				continue
+			}
+			if _, ok := v.(*OpaqueV); ok {
+				continue
+			}
+			st.Globs[g] = mapLeaves(v, func(t *Term) *Term { return Fresh("hv:glob", t.Sort) })
+		}
+		st.HavocAll++
+		st.Epoch = newEpoch()
+		st.EpochMaps = ""
+		e.growAlloc(st)
+	}
+	if ms.Maps && !ms.AllHeap {
+		for k, h := range st.Heaps {
+			if strings.HasPrefix(k, "map:") {
+				st.Heaps[k] = mapLeaves(h, func(t *Term) *Term { return Fresh("hv:"+k, t.Sort) })
+			}
+		}
+		st.HavocMaps++
+		st.EpochMaps = newEpoch()
+	}
+	if ms.Ev {
+		for k, g := range st.Ghost {
+			if strings.HasPrefix(k, "ev:") || k == "evLen" {
+				st.Ghost[k] = mapLeaves(g, func(t *Term) *Term { return Fresh("G:"+k, t.Sort) })
+			}
+		}
+		if _, ok := st.Ghost["evLen"]; !ok {
+			st.Ghost["evLen"] = Fresh("G:evLen", BV64)
+		}
+		st.HavocEv++
+		st.EpochEv = newEpoch()
 	}
 	for name := range ms.Ghosts {
 		g := e.cs.Ghosts[name]
@@ -313,6 +374,13 @@ func (e *Engine) growAlloc(st *State) {
 	st.Alloc = na
 }
 
+var epochCounter int
+
+func newEpoch() string {
+	epochCounter++
+	return fmt.Sprintf("!e%d", epochCounter)
+}
+
 func (s *State) heapByKey(key string, ft types.Type) Value {
 	if h, ok := s.Heaps[key]; ok {
 		return h
@@ -351,7 +419,10 @@ func (e *Engine) checkFrame(p *Path, ms *ModSet, entry *State, exitKind string, 
 	}
 	sort.Strings(hk)
 	check := func(kind, key string, leaf *Term, all bool, refs []*Term, ranges []MemRange) {
-		if all {
+		if all || ms.AllHeap {
+			return
+		}
+		if ms.Maps && strings.HasPrefix(key, "map:") {
 			return
 		}
 		root, idx := rootAndStores(leaf)
@@ -406,6 +477,9 @@ func (e *Engine) checkFrame(p *Path, ms *ModSet, entry *State, exitKind string, 
 	}
 	for name, v := range st.Ghost {
 		if strings.Contains(name, "!") || ms.Ghosts[name] {
+			continue
+		}
+		if ms.Ev && (name == "evLen" || strings.HasPrefix(name, "ev:")) {
 			continue
 		}
 		for _, leaf := range leaves(v) {
@@ -509,6 +583,9 @@ func (e *Engine) doCallValues(p *Path, fr *Frame, c *ssa.CallCommon, fnVal Value
 	if c.IsInvoke() {
 		key := ifaceMethodKey(c.Value.Type(), c.Method.Name())
 		ct := e.cs.Ifaces[key]
+		if ct == nil {
+			ct = e.cs.Ifaces[ifaceMethodKey(c.Value.Type(), "*")]
+		}
 		if ct == nil {
 			// method may come from an embedded interface: try all named interfaces that declare it
 			if it, ok := c.Value.Type().Underlying().(*types.Interface); ok {
@@ -743,6 +820,16 @@ func (e *Engine) applyContract(p *Path, fr *Frame, ct *Contract, what string, pk
 		return nil
 	}
 	e.havoc(p.st, ms)
+	var fwd *fwdResult
+	if len(ct.Forwards) > 0 {
+		fctx := &EvalCtx{eng: e, pkg: pkg, cur: pre, old: pre, env: env}
+		fwd, err = e.evalForwards(fctx, ct, pre)
+		if err != nil {
+			e.failObl("resolve", "forwards@"+what, err.Error())
+			p.done = true
+			return nil
+		}
+	}
 	// exceptional path
 	var forks []*Path
 	canPanic := ct.MayPanic || len(ct.XEnsures) > 0 || len(ct.Panics) > 0 || ct.NoReturn
@@ -764,6 +851,9 @@ func (e *Engine) applyContract(p *Path, fr *Frame, ct *Contract, what string, pk
 		if cond != False {
 			p2 := p.clone()
 			p2.st.Assume(cond)
+			if fwd != nil {
+				fwd.apply(p2.st, true)
+			}
 			c2 := &EvalCtx{eng: e, pkg: pkg, cur: p2.st, old: pre, env: env}
 			bad := false
 			for _, x := range ct.XEnsures {
@@ -787,6 +877,9 @@ func (e *Engine) applyContract(p *Path, fr *Frame, ct *Contract, what string, pk
 	}
 	if len(ct.Panics) > 0 {
 		p.st.Assume(Not(Or(panicConds...)))
+	}
+	if fwd != nil {
+		fwd.apply(p.st, false)
 	}
 	// results
 	var res []Value
@@ -1074,10 +1167,109 @@ func (e *Engine) intrinsic(p *Path, fr *Frame, key string, fn *ssa.Function, arg
 	return nil, false
 }
 
-// hooks filled in by later milestones
-func (e *Engine) logIface(t types.Type) string { return "" }
+// ---------------------------------------------------------------------------------------------
+// ghost event log: calls through a logged interface (iface_log) append (method, arguments) to
+// the ghost arrays ev:* at index evLen and may panic afterwards (the whole trusted contract of
+// "the next receiver").
+
+func (e *Engine) logIface(t types.Type) string {
+	k := types.TypeString(t, func(p *types.Package) string { return p.Name() })
+	if e.cs.LogIfaces[k] {
+		return k
+	}
+	return ""
+}
+
+func evArrayName(k, j int, s *Sort) string { return fmt.Sprintf("ev:a%d.%d:%s", k, j, s.String()) }
+
+func (s *State) evArray(name string, elem *Sort) *Term {
+	if v, ok := s.Ghost[name]; ok {
+		return v.(*Term)
+	}
+	v := Var("G:"+name+s.EpochEv, ArraySort(BV64, elem))
+	s.Ghost[name] = v
+	return v
+}
+
+func (s *State) evLen() *Term {
+	if v, ok := s.Ghost["evLen"]; ok {
+		return v.(*Term)
+	}
+	v := Var("G:evLen"+s.EpochEv, BV64)
+	s.Ghost["evLen"] = v
+	return v
+}
+
+// methodID: index of the method name in the sorted method set of any logged interface.
+func (e *Engine) methodID(name string) (*Term, bool) {
+	if id, ok := e.methodIDs[name]; ok {
+		return BVU(uint64(id), 16), true
+	}
+	return nil, false
+}
+
+func (e *Engine) registerLogMethods(it *types.Interface) {
+	if e.methodIDs == nil {
+		e.methodIDs = map[string]int{}
+	}
+	var names []string
+	for i := 0; i < it.NumMethods(); i++ {
+		names = append(names, it.Method(i).Name())
+	}
+	sort.Strings(names)
+	for _, n := range names {
+		if _, ok := e.methodIDs[n]; !ok {
+			e.methodIDs[n] = len(e.methodIDs) + 1
+		}
+	}
+}
+
+func (e *Engine) logEvent(st *State, method string, args []Value) {
+	n := st.evLen()
+	id, _ := e.methodID(method)
+	ma := st.evArray("ev:method", BV(16))
+	st.Ghost["ev:method"] = Store(ma, n, id)
+	for k, a := range args {
+		if _, opq := a.(*OpaqueV); opq {
+			continue
+		}
+		for j, l := range leaves(a) {
+			name := evArrayName(k, j, l.Sort)
+			arr := st.evArray(name, l.Sort)
+			st.Ghost[name] = Store(arr, n, l)
+		}
+	}
+	st.Ghost["evLen"] = BVBin("bvadd", n, BVU(1, 64))
+}
+
+// forwardedTerm: event i of the log is a call of method with exactly these arguments.
+func (e *Engine) forwardedTerm(st *State, i *Term, method string, args []Value) (*Term, error) {
+	id, ok := e.methodID(method)
+	if !ok {
+		return nil, fmt.Errorf("forwarded: no logged interface has a method %q", method)
+	}
+	cs := []*Term{Eq(Select(st.evArray("ev:method", BV(16)), i), id)}
+	for k, a := range args {
+		for j, l := range leaves(a) {
+			cs = append(cs, Eq(Select(st.evArray(evArrayName(k, j, l.Sort), l.Sort), i), l))
+		}
+	}
+	return And(cs...), nil
+}
+
 func (e *Engine) logInvoke(p *Path, fr *Frame, lg string, c *ssa.CallCommon, recv Value, args []Value, dst ssa.Value, pos token.Pos) []*Path {
-	return nil
+	if it, ok := c.Value.Type().Underlying().(*types.Interface); ok {
+		e.registerLogMethods(it)
+	}
+	e.TrustedUse["iface "+lg+".* (ghost event log: records the call, may panic, touches nothing else)"] = true
+	e.logEvent(p.st, c.Method.Name(), args)
+	p2 := p.clone()
+	e.raisePanic(p2)
+	rs := c.Method.Type().(*types.Signature).Results()
+	if dst != nil && rs.Len() > 0 {
+		fr.env[dst] = freshOf("ret", rs, nil, false)
+	}
+	return []*Path{p2}
 }
 func (e *Engine) closedWorld(t types.Type) []*ssa.Function { return nil }
 func (e *Engine) dispatchClosed(p *Path, fr *Frame, cw []*ssa.Function, c *ssa.CallCommon, recv Value, args []Value, dst ssa.Value, isDefer bool, pos token.Pos) []*Path {
@@ -1173,9 +1365,41 @@ func (e *Engine) VerifyFunc(key string) {
 		e.failObl("resolve", "modifies", err.Error())
 		return
 	}
+	var fwdTop *fwdResult
+	if len(ct.Forwards) > 0 {
+		fctx := e.funcCtx(p, fr, entry)
+		fctx.cur = entry
+		for k, v := range fr.lets {
+			fctx.env[k] = v
+		}
+		fwdTop, err = e.evalForwards(fctx, ct, entry)
+		if err != nil {
+			e.failObl("resolve", "forwards", err.Error())
+			return
+		}
+		ms.Ev = true
+		// the entry snapshot must know the event-log arrays the contract talks about
+		for _, k := range fwdTop.names {
+			if _, ok := st.Ghost[k]; !ok {
+				st.Ghost[k] = fwdTop.pre[k]
+			}
+		}
+		if _, ok := st.Ghost["evLen"]; !ok {
+			st.Ghost["evLen"] = fwdTop.preLen
+		}
+	}
 	nExit := 0
 	e.runPaths(p, func(p *Path, normal bool, res []Value) {
 		nExit++
+		if fwdTop != nil {
+			kind, detail := "post", "forwards"
+			if !normal {
+				kind = "xpost"
+			}
+			if normal || !ct.MayPanic || true {
+				e.obligeKeep(p, kind, detail, fn.Pos(), fwdTop.check(p.st, !normal), "forwards: exactly the stated call is appended to the event log (on panic: nothing or exactly that call)")
+			}
+		}
 		c := e.funcCtx(p, fr0(p, fr), entry)
 		// parameters are immutable SSA values: bind from the original frame
 		for _, prm := range fn.Params {
